@@ -25,6 +25,16 @@ def handleAgg : List Sexp → Option String
       match aggMean (← ints vs) with
       | none => some "none"
       | some (s, n) => some s!"frac {s} {n}"
+  -- `mean` over a column of a narrow numeric type: the model's mean is the exact fraction whatever the column type; values outside the type are rejected as the harness does
+  | .atom "mean_t" :: .atom ty :: vs => do
+      let (lo, hi) ← (match ty with
+        | "u8" => some ((0 : Int), (255 : Int)) | "i8" => some (-128, 127) | "u16" => some (0, 65535) | "i16" => some (-32768, 32767)
+        | "u32" => some (0, 4294967295) | "i32" => some (-2147483648, 2147483647) | _ => none)
+      let l ← ints vs
+      if l.any fun x => x < lo || x > hi then none
+      else match aggMean l with
+        | none => some "none"
+        | some (s, n) => some s!"frac {s} {n}"
   | [.atom "not", n] => do some (toString (aggNot (← n.asNat?)).length)
   | [.atom "count", n, lo, hi] => do
       let hi' ← match hi with
